@@ -54,6 +54,24 @@ const INJECTIONS: &[(&str, &str)] = &[
     ("E032", "\n"), // handled specially: ^ in the start rule
     ("E033", "\nzz1: A; part zz1 zz1;\n"),
     ("E034", "\npart r0;\n"),
+    // the same guards in other shapes (a guard that only recognises one shape lets the back end
+    // emit code that does not compile)
+    ("E025b", "\nzz1: zz1 A zz1 | A >;\n"),
+    ("E025c", "\nzz1: zz1 A zz1 > | A;\n"),
+    ("E025d", "\nzz1: zz1 A zz1 | A zz1 | A >zz2;\n"),
+    ("E021b", "\nzz1: zz1 A zz1 ^ | A;\n"),
+    ("E021c", "\nzz1^: zz1 A zz1 | A;\n"),
+    ("E021d", "\nzz1: zz1 A | zz1 A zz1 ^ | A;\n"),
+    ("E028b", "\nzz1: (zz2 / A) A; zz2: A A / A;\n"),
+    ("E028c", "\nzz1: A [A A / A] / A;\n"),
+    ("E029b", "\nzz1: zz2 A / A; zz2: A #1;\n"),
+    ("E029c", "\nzz1: (A (A #2)* / A) A;\n"),
+    ("E024b", "\nzz1: [<1 A] A 1>zz2;\n"),
+    ("E024c", "\nzz1: (<1 A)* 1>zz2;\n"),
+    ("E023b", "\nzz1: A 1>zz2 <1 A;\n"),
+    ("E009b", "\nzz1: A [r0];\n"),
+    ("E020b", "\ntoken Zl Zr Zc; right Zr; zz1: zz1 (Zl | Zr) zz1 Zc zz1 | A;\n"),
+    ("E017b", "\ntoken Zsk = 'zsk'; skip Zsk; zz1: 'zsk';\n"),
     ("E011", "\nzz1: A A | A;\n"),
     ("E013", "\nzz1: A* A;\n"),
     ("E014", "\nzz1: [A] A;\n"),
@@ -75,7 +93,14 @@ fn inject(text: &str, g: &Grammar, which: usize) -> (String, &'static str) {
             // make zq0 the only start rule
             t = t.replace(&format!("start {} ;", g.rules[g.start].name), "start zq0 ;");
         }
-        _ => t.push_str(snippet),
+        _ => {
+            t.push_str(snippet);
+            // the injected rule is made an entry point: code is only emitted for rules that are
+            // used, and a weakened guard shows in the emitted code
+            if (snippet.contains("zz1:") || snippet.contains("zz1^:")) && name != "E033" {
+                t.push_str("part zz1;\n");
+            }
+        }
     }
     (t, name)
 }
